@@ -1,0 +1,21 @@
+package pgdump
+
+import (
+	"fmt"
+	"os"
+)
+
+// readRegularFile is os.ReadFile for the files of a data directory. Everything
+// PostgreSQL stores there is a regular file; a FIFO, socket or device that took
+// the place of one (a restored archive, a hostile directory) would make the read
+// block forever or never end, so anything else is reported as an error.
+func readRegularFile(path string) ([]byte, error) {
+	info, err := os.Stat(path)
+	if err != nil {
+		return nil, err
+	}
+	if !info.Mode().IsRegular() {
+		return nil, fmt.Errorf("%s: not a regular file", path)
+	}
+	return os.ReadFile(path)
+}
